@@ -849,6 +849,15 @@ func redoEquity(c *types.ChangeLog, processor types.ChangeLogProcessor) error {
 }
 
 func undoEquity(c *types.ChangeLog, processor types.ChangeLogProcessor) error {
+	// the account held no equity of this id before the change: restore "not exist"
+	if c.OldVal == nil {
+		id, ok := c.Extra.(common.Hash)
+		if !ok {
+			log.Errorf("undoEquity expected Extra common.Hash, got %T", c.Extra)
+			return types.ErrWrongChangeLogData
+		}
+		return processor.GetAccount(c.Address).SetEquityState(id, nil)
+	}
 	oldVal, ok := c.OldVal.(*types.AssetEquity)
 	if !ok {
 		log.Errorf("undoEquity expected OldVal *types.AssetEquity, got %T", c.OldVal)
